@@ -37,8 +37,82 @@ fn huge_scenario<E: Elem>(c: &mut Ctx, rng: &mut Rng) {
     c.max("max_buckets", d.facts.buckets as u64);
 }
 
+/// Few survivors behind tombstones: n colliding elements fill several probe windows, all but 1..3 are removed (so the
+/// survivors sit behind windows that hold nothing but tombstones), and each survivor then goes through the
+/// remove -> VacantEntry::insert chain, which writes into the slot the removal just vacated. Every stored element
+/// must stay reachable by find / find_entry / iter_hash with its hash after every step.
+fn survivor_case<E: Elem>(c: &mut Ctx, rng: &mut Rng) {
+    use crate::plan::Plan;
+    use crate::states::{Coll, TableC};
+    let plan = *rng.pick(&[Plan::SamePos, Plan::Zero, Plan::Max, Plan::Palette(1, 3), Plan::Palette(2, 2), Plan::IdentOneTag, Plan::Tail]);
+    let bh = PlanBH::new(plan, rng.next());
+    let n = (*rng.pick(&[9u32, 17, 18, 33, 40, 70])).min(E::ID_SPACE - 1);
+    let keep_n = 1 + rng.usize_below(3);
+    let mut d = Json::obj();
+    d.set("case", Json::s(format!("HashTable<{}>: {} colliding elements ({}), {} survivor(s), remove + same-slot reinsertion", E::NAME, n, plan.name(), keep_n)));
+    c.describe(d);
+    c.bump("survivor_cases");
+    let mut t: TableC<E> = TableC::with_cap(bh, *rng.pick(&[0usize, 0, 28, 56]));
+    for id in 0..n {
+        t.put(id, 1);
+    }
+    // survivors: mostly the last-inserted (most displaced) elements
+    let mut keep: Vec<u32> = Vec::new();
+    while keep.len() < keep_n.min(n as usize) {
+        let id = if rng.chance(2, 3) { n - 1 - rng.below(3.min(n as u64)) as u32 } else { rng.below(n as u64) as u32 };
+        if !keep.contains(&id) {
+            keep.push(id);
+        }
+    }
+    let mut order: Vec<u32> = (0..n).filter(|id| !keep.contains(id)).collect();
+    if rng.chance(1, 2) {
+        order.reverse();
+    }
+    for id in order {
+        t.del(id);
+    }
+    let what = format!("HashTable<{}> [{} of {} colliding elements left, {}]", E::NAME, keep.len(), n, plan.name());
+    let reachable = |t: &TableC<E>, step: &str| {
+        for id in &keep {
+            let h = crate::plan::plan_hash(bh.plan, bh.salt, *id as u64);
+            let by_find = t.0.find(h, |e| e.id() == *id).is_some();
+            let by_iter_hash = t.0.iter_hash(h).any(|e| e.id() == *id);
+            crate::check!(by_find && by_iter_hash, "{} {}: stored element {} is not reachable with its hash (find: {}, iter_hash: {}); len() = {}", what, step, id, by_find, by_iter_hash, t.len());
+        }
+        crate::check!(t.len() == keep.len(), "{} {}: len() {} != {}", what, step, t.len(), keep.len());
+        t.validate(&what);
+    };
+    reachable(&t, "after the removals");
+    for round in 0..2 {
+        for id in keep.clone() {
+            c.evaluations += 1;
+            c.sig_parts(&[66, keep.len() as u64, (n > 16) as u64, crate::ctx::prop_salt(&plan.name()), round]);
+            let h = crate::plan::plan_hash(bh.plan, bh.salt, id as u64);
+            match t.0.find_entry(h, |e| e.id() == id) {
+                Ok(o) => {
+                    let (val, vacant) = o.remove();
+                    val.check();
+                    let occ = vacant.insert(val);
+                    occ.get().check();
+                    crate::check!(occ.get().id() == id, "{}: the reinserted entry shows {}", what, occ.get().id());
+                }
+                Err(_) => {
+                    crate::viol!("{}: find_entry does not find stored element {}", what, id);
+                    return;
+                }
+            }
+            reachable(&t, &format!("after remove + reinsert of {}", id));
+        }
+    }
+}
+
 pub fn run(c: &mut Ctx) {
     c.run_scenarios(|c, idx, rng| {
+        if crate::util::mix(idx ^ 0x50) % 12 == 0 {
+            let e = ["P8", "T24", "B3", "L200"][rng.usize_below(4)];
+            for_elem!(e, survivor_case(c, rng));
+            return;
+        }
         if crate::util::mix(idx) % 97 == 1 && !c.is_miri() {
             if rng.chance(1, 2) {
                 huge_scenario::<crate::elem::P8>(c, rng);
